@@ -60,6 +60,12 @@ func (g *ogen) orderKey(used map[string]bool) (doc.Pair, bool) {
 		case 5:
 			p.Key = ""
 			feat = "key:empty"
+			if g.r.IntN(3) == 0 {
+				// the string "<<" as an ordinary (quoted) key: not a merge on the way in (on the way out the YAML
+				// emitter does not quote it - known finding K4 - so only the JSON leg is compared for such documents)
+				p.Key = "<<"
+				feat = "key:quoted-merge-spelling"
+			}
 		case 6:
 			p.Key = Pick(g.r, []string{"é", "日本語", "😀", "a b", "z y", "ß→∀"}) + g.uid.Next()
 			feat = "key:unicode"
